@@ -17,7 +17,7 @@ ANCHORS = ['phylib.io.array:chunk_bounds', 'phylib.io.array:data_chunk', 'phylib
            'phylib.io.traces:_get_chunk_bounds', 'phylib.io.traces:BaseEphysReader.iter_chunks',
            'phylib.io.traces:MtscompEphysReader.iter_chunks']
 RULE = ('EVERY (length n, chunk size, overlap < chunk) with n <= N, chunk <= 16 (thorough: chunk <= N): the tuples yielded by '
-        'chunk_bounds are replayed on arange(n) through data_chunk (kept parts must concatenate to the '
+        'chunk_bounds are replayed on arange(n) through data_chunk (plus random lengths up to 10^7 judged by interval arithmetic) (kept parts must concatenate to the '
         'data, each kept part inside its chunk, chunk length <= chunk size); EVERY (n, n_excerpts 2..6, '
         'size 1..10) for excerpts and n_excerpts 0..6 for get_excerpts; EVERY list of <= 4 file sizes '
         '<= 6 x chunk <= 8 for _get_chunk_bounds (interval-tiling oracle + M2 contract), with real '
@@ -65,6 +65,13 @@ def run_shard(desc, ctx):
                 run_case({'kind': 'file_bounds', 'sizes': list(sizes), 'chunk': cs}, ctx)
             if nf <= 3:
                 run_case({'kind': 'flat_reader', 'sizes': list(sizes), 'chunks': list(range(1, 9))}, ctx)
+    # large random lengths, judged by interval arithmetic (no data array)
+    rng = np.random.default_rng([desc['seed'], sh, 16])
+    for _ in range(300 if desc['tier'] == 'quick' else 20000):
+        n = int(10 ** rng.uniform(2, 7))
+        cs = int(10 ** rng.uniform(0, np.log10(n) + 0.3)) + 1
+        ov = int(rng.integers(0, cs))
+        run_case({'kind': 'chunk_bounds_big', 'n': n, 'chunk': cs, 'overlap': ov}, ctx)
     # compressed readers
     ncb = [5, 8, 13] if desc['tier'] == 'quick' else [1, 2, 5, 8, 13, 21, 34]
     for n in ncb:
@@ -130,6 +137,36 @@ def _case_chunk_bounds(case, ctx):
     if d:
         ctx.violation('kept_parts_do_not_tile', case, 'kept parts %s: %s' % (cat.tolist(), d),
                       {'n_lt_chunk': n < cs})
+
+
+def _case_chunk_bounds_big(case, ctx):
+    from phylib.io.array import chunk_bounds
+    n, cs, ov = case['n'], case['chunk'], case['overlap']
+    if n // max(1, cs - ov) > 200000:
+        ctx.note('big_case_skipped_too_many_chunks')
+        return
+    ctx.count(1, key=hkey('cbb', n, cs, ov), nontrivial=True, cell=('chunk_bounds_big',))
+    r = call(lambda: list(chunk_bounds(n, cs, overlap=ov)))
+    if not r.ok:
+        ctx.violation('raised', case, 'chunk_bounds raised %r' % r.exc, tb=r.tb)
+        return
+    pos = 0
+    for c in r.value:
+        s0, s1, k0, k1 = [int(x) for x in c]
+        a, b = max(0, min(k0, n)), max(0, min(k1, n))
+        if min(s1, n) - s0 > cs or s0 < 0:
+            ctx.violation('chunk_too_long', case, 'chunk %r holds more than %d samples' % (c, cs))
+            return
+        if b > a and (a < s0 or b > min(s1, n)):
+            ctx.violation('kept_outside_chunk', case, 'kept part %r outside chunk' % (c,))
+            return
+        if b > a:
+            if a != pos:
+                ctx.violation('kept_parts_do_not_tile', case, 'kept part of %r starts at %d, expected %d' % (c, a, pos))
+                return
+            pos = b
+    if pos != n:
+        ctx.violation('kept_parts_do_not_tile', case, 'kept parts end at %d, expected %d' % (pos, n))
 
 
 def _case_excerpts(case, ctx):
